@@ -71,9 +71,13 @@ func (r *Run) Rule(id, engine, decides string, min int) {
 	if min >= 6 {
 		min = (min*3 + 4) / 5
 	}
-	if _, ok := r.rules[full]; !ok {
+	if ri, ok := r.rules[full]; !ok {
 		r.rules[full] = &RuleInfo{ID: full, Engine: engine, Decides: decides, Min: min}
 		r.order = append(r.order, full)
+	} else if ri.Engine == "" && ri.Decides == "" {
+		// an obligation was recorded before the rule was declared: the declaration still supplies the description and the
+		// vacuous-pass minimum
+		ri.Engine, ri.Decides, ri.Min = engine, decides, min
 	}
 	r.cur = full
 }
